@@ -21,6 +21,7 @@ type Obligation struct {
 	PC      Term
 	Cond    Term
 	NAssume int
+	By      []string // non-nil: only quantified assumptions with these labels are used (see Clause.By)
 	Src     string
 	Pos     string
 	Unit    string
@@ -125,6 +126,10 @@ type Unit struct {
 	fieldDecls   map[string]*FieldDecl // "Type.field"
 	lets         map[string]Term
 	specLocals   []map[string]Term
+	lastGhost    map[string]Term // callee name + ":" + exported ghost -> value after the most recent call
+	assumeLabels map[int]string // index into assumes -> clause label (absent: structural definition, always kept)
+	curLabel     string
+	pendingBy    []string
 	seenStack    []Term
 	idxStack     []Term
 	curLoopScope []ast.Node
@@ -184,7 +189,7 @@ func NewUnit(p *Program, fu *FuncUnit) *Unit {
 		loopOrd: map[ast.Stmt]int{}, before: map[ast.Node][]*AnchorAction{}, after: map[ast.Node][]*AnchorAction{},
 		actionStmt: map[*AnchorAction]ast.Node{}, abstractions: map[string]bool{}, nameCtr: map[string]int{},
 		synthObjs: map[string]types.Object{}, ghostSorts: map[string]*Sort{}, ghostTypes: map[string]types.Type{},
-		fieldDecls: map[string]*FieldDecl{}, lets: map[string]Term{}, traceKeys: map[string][]*Sort{}, callOrd: map[string]int{},
+		fieldDecls: map[string]*FieldDecl{}, lets: map[string]Term{}, lastGhost: map[string]Term{}, traceKeys: map[string][]*Sort{}, callOrd: map[string]int{},
 		closureBind: map[types.Object]*ast.FuncLit{}, usedActions: map[*AnchorAction]bool{}, usedLoops: map[string]bool{},
 		callees: map[string]bool{}, trusted: map[string]bool{}, sentinels: map[string]bool{}, litOf: map[string]*ast.FuncLit{},
 		loopEnd: map[ast.Node][]*AnchorAction{}, lastIdx: map[ast.Stmt]Term{}, isParam: map[types.Object]bool{}, clausePos: map[*Clause]token.Pos{},
@@ -240,6 +245,25 @@ func (x *Unit) assume(st *State, fact Term) {
 		return
 	}
 	x.assumes = append(x.assumes, Implies(st.pc, fact).S)
+	if x.assumeLabels == nil {
+		x.assumeLabels = map[int]string{}
+	}
+	x.assumeLabels[len(x.assumes)-1] = x.curLabel
+}
+
+// assumeAs records a fact under a clause label, so that a `by(...)` hint can select it.
+func (x *Unit) assumeAs(st *State, label string, fact Term) {
+	saved := x.curLabel
+	x.curLabel = label
+	x.assume(st, fact)
+	x.curLabel = saved
+}
+
+// obligeBy is oblige with a proof hint.
+func (x *Unit) obligeBy(by []string, st *State, kind, label string, tags []string, cond Term, src string, node ast.Node) {
+	x.pendingBy = by
+	x.oblige(st, kind, label, tags, cond, src, node)
+	x.pendingBy = nil
 }
 
 func (x *Unit) withCond(st *State, c Term) *State {
@@ -297,7 +321,7 @@ func (x *Unit) oblige(st *State, kind, label string, tags []string, cond Term, s
 	if st != nil {
 		pc = st.pc
 	}
-	x.obls = append(x.obls, &Obligation{Name: name, Kind: kind, Label: label, Tags: tags, PC: pc, Cond: cond, NAssume: len(x.assumes), Src: src, Pos: pos, Unit: x.FU.Name})
+	x.obls = append(x.obls, &Obligation{Name: name, Kind: kind, Label: label, Tags: tags, PC: pc, Cond: cond, NAssume: len(x.assumes), By: x.pendingBy, Src: src, Pos: pos, Unit: x.FU.Name})
 }
 
 // ---------------------------------------------------------------------------
